@@ -31,6 +31,8 @@ def sanitizer_kind(noise):
     the dead memory happens to contain, and shrinking must be able to keep the class constant."""
     text = '\n'.join(noise)
     if 'ThreadSanitizer' in text:
+        if 'SEGV' in text or 'DEADLYSIGNAL' in text or 'heap-use-after-free' in text or 'double-free' in text:
+            return 'memory-error'
         if 'data race' in text:
             return 'data-race'
         if 'lock-order-inversion' in text:
@@ -75,7 +77,30 @@ def basic(result, expect_quiesced=True):
         raise HarnessError(f'run {result.id}: simulation exited with {result.exit}; notes={result.notes[:5]}')
     if expect_quiesced and not any(r['kind'] in ('quiesced', 'shell_ctor', 'fc') for r in result.records):
         raise HarnessError(f'run {result.id}: history has no construction records')
+    v += sibling(result)
     return v
+
+
+def sibling(result):
+    """A second instance of the same shell type lives in the process (tape keyword SIBLING): nothing the judged instance
+    does may reach it, and at the end it is exactly as it was left - same parent, same registered clients, its own
+    claim holder still receives its component's out-event."""
+    out = []
+    for r in result.records:
+        if r['kind'] == 'xtalk':
+            out.append(Violation('instance:event-reached-another-shell-instance', f"event {r.get('ev')} side {r.get('side')} client {r.get('cl')}", r['seq']))
+            break
+    for r in result.records:
+        if r['kind'] != 'sibling_check':
+            continue
+        if 'exc' in r:
+            out.append(Violation('instance:sibling-instance-disturbed', f"inspection threw {r['exc']}", r['seq']))
+        elif r.get('parent_ok') != '1' or r.get('ids_ok') != '1':
+            out.append(Violation('instance:sibling-instance-disturbed', f"parent_ok={r.get('parent_ok')} ids_ok={r.get('ids_ok')}", r['seq']))
+        elif r.get('delivered') not in ('-', r.get('holder')) and not (r.get('holder') == '-1' and r.get('delivered') == 'none'):
+            out.append(Violation('instance:sibling-instance-disturbed',
+                                 f"its component's out-event went to {r.get('delivered')}, its claim holder is client {r.get('holder')}", r['seq']))
+    return out
 
 
 def _generic_what(what):
@@ -468,11 +493,20 @@ def judge_c10(mb, run, result):
         return []   # C09's subject
     fc = h.first('fc')
     out = client_registration(h, run)
-    if run['unbinds']:
-        side, ev, cl = run['unbinds'][0]
-        e = mb.events[ev]
-        p = mb.ports[e['port']]
-        what = f"{p['dir']} {p['sem']} port {p['name']} {e['dir']}-event {e['name']} ({'user side' if side == 0 else 'component side'}" + (f', client {cl})' if cl >= 0 else ')')
+    mon = h.first('monitor_registered')
+    mon_ok = mon is not None and mon['result'] == 'ok'
+    if mon_ok and mon['fcstate'] == '2':
+        out.append(Violation('final-construct:client-registered-afterwards', f'by the log sink: {mon}'))
+    mon_unbound = mon_ok and mon['fcstate'] in ('0', '1') and bool(mb.mc and mb.mc['out_events'])
+    if run['unbinds'] or mon_unbound:
+        if run['unbinds']:
+            side, ev, cl = run['unbinds'][0]
+            e = mb.events[ev]
+            p = mb.ports[e['port']]
+            what = f"{p['dir']} {p['sem']} port {p['name']} {e['dir']}-event {e['name']} ({'user side' if side == 0 else 'component side'}" + (f', client {cl})' if cl >= 0 else ')')
+        else:
+            what = (f"client 'monitor', registered by the user's log sink on its message #{run.get('reentry')} "
+                    f"({'before' if mon['fcstate'] == '0' else 'during'} FinalConstruct), has unbound out-events")
         if fc['result'] != 'throw':
             out.append(Violation('final-construct:unbound-event-accepted', what))
         elif fc.get('exc') != 'binding_error':
@@ -512,9 +546,11 @@ def client_registration(h: History, run):
     for r in h.by_kind.get('client_ports', []):
         if r['distinct'] != '1':
             out.append(Violation('multiclient:clients-share-a-port-object', f"identifiers {run.get('client_names')}"))
+    mon = h.first('monitor_registered')
     for r in h.by_kind.get('client_ids', []):
         got = sorted([] if r['ids'] == '-' else r['ids'].split(','))
-        want = sorted(run.get('client_names') or [f'client{k}' for k in range(run['clients'])])
+        want = sorted((run.get('client_names') or [f'client{k}' for k in range(run['clients'])]) +
+                      (['monitor'] if mon is not None and mon['result'] == 'ok' and mon['seq'] < r['seq'] else []))
         if got != want:
             out.append(Violation('multiclient:registered-identifiers-not-listed', f'registered {want}, listed {got}'))
     return out
